@@ -157,6 +157,13 @@ func unmarshalList(dec *msgpack.Decoder, ety cty.Type, path cty.Path) (cty.Value
 		vals = append(vals, val)
 	}
 
+	// The elements can have inconsistent types only when the element type
+	// constraint contains cty.DynamicPseudoType, in which case each element
+	// was typed by the input. ListVal would panic, so we must check first.
+	if !cty.CanListVal(vals) {
+		return cty.DynamicVal, path[:len(path)-1].NewErrorf("all list elements must have the same type")
+	}
+
 	return cty.ListVal(vals), nil
 }
 
@@ -186,6 +193,13 @@ func unmarshalSet(dec *msgpack.Decoder, ety cty.Type, path cty.Path) (cty.Value,
 		}
 
 		vals = append(vals, val)
+	}
+
+	// The elements can have inconsistent types only when the element type
+	// constraint contains cty.DynamicPseudoType, in which case each element
+	// was typed by the input. SetVal would panic, so we must check first.
+	if !cty.CanSetVal(vals) {
+		return cty.DynamicVal, path[:len(path)-1].NewErrorf("all set elements must have the same type")
 	}
 
 	return cty.SetVal(vals), nil
@@ -222,6 +236,13 @@ func unmarshalMap(dec *msgpack.Decoder, ety cty.Type, path cty.Path) (cty.Value,
 		}
 
 		vals[key] = val
+	}
+
+	// The elements can have inconsistent types only when the element type
+	// constraint contains cty.DynamicPseudoType, in which case each element
+	// was typed by the input. MapVal would panic, so we must check first.
+	if !cty.CanMapVal(vals) {
+		return cty.DynamicVal, path[:len(path)-1].NewErrorf("all map elements must have the same type")
 	}
 
 	return cty.MapVal(vals), nil
